@@ -140,6 +140,77 @@ Section Abscissa1.
     - intros v. rewrite Cr, CDs.
       rewrite dotR_scale_r, (dotR_comm c dbs). unfold dzero. rewrite coef_const. ring.
   Qed.
+
+  (* Dual coefficients AND a dual abscissa (PPSpline<Dual>::ppdnev_single_dual): the total
+     derivative = sensitivity through the data + the spline's own derivative times the abscissa's *)
+  Lemma gdot_dd_acc (c : list (dual R)) : forall Ds acc, Forall wf c -> Forall wf Ds -> wf acc ->
+    let r := fold_left (fun acc p => dadd false acc (dmul false (fst p) (snd p))) (combine c Ds) acc in
+    wf r /\ re r = re acc + dotR (map (@re R) c) (map (@re R) Ds) /\
+    forall v, coef r v = coef acc v + dotR (map (fun d => coef d v) c) (map (@re R) Ds)
+                         + dotR (map (@re R) c) (map (fun d => coef d v) Ds).
+  Proof.
+    induction c as [|ci c IH]; intros Ds acc Wc WDs Wacc.
+    - cbn. split; [exact Wacc|]. split; [ring|]. intros; ring.
+    - destruct Ds as [|D Ds].
+      + cbn. split; [exact Wacc|]. split; [ring|]. intros; ring.
+      + inversion WDs as [|? ? WD WDs']; subst. inversion Wc as [|? ? Wci Wc']; subst.
+        cbn [combine fold_left fst snd map dotR].
+        destruct (dmul_spec false ci D Wci WD ltac:(discriminate)) as (WM & RM & CM & _).
+        destruct (dadd_spec false acc (dmul false ci D) Wacc WM ltac:(discriminate)) as (W1 & R1 & C1 & _).
+        destruct (IH Ds (dadd false acc (dmul false ci D)) Wc' WDs' W1) as (W2 & R2 & C2).
+        split; [exact W2|]. split.
+        * rewrite R2, R1, RM. ring.
+        * intros v. rewrite C2, C1, CM. ring.
+  Qed.
+
+  Lemma ppdnev_single_dual_R (s : @ppspline R (dual R)) c x m d :
+    pc s = Some c -> Forall wf c -> ppdnev_single xmul_dual s x m = Ok d ->
+    exists row, bspldnev_row x (pk s) (pt s) m (pn s) = Ok row /\ length row = length c /\
+                re d = dotR row (map (@re R) c) /\ forall v, coef d v = dotR row (map (fun e => coef e v) c).
+  Proof.
+    intros Hc Wc. unfold ppdnev_single. rewrite Hc.
+    destruct (bspldnev_row x (pk s) (pt s) m (pn s)) as [row| |]; cbn [obind]; try discriminate.
+    unfold fdmul11_, gmul11. destruct (Nat.eqb_spec (length row) (length c)); try discriminate.
+    intros HD. inversion HD as [HD']. exists row. split; auto. split; auto.
+    destruct (gdot_dual_acc row c dzero Wc wf_dzero) as (W & Rr & Cr).
+    subst d. unfold gdot. cbn [osum0 ops_dual]. split.
+    - rewrite Rr. cbn. ring.
+    - intros v. rewrite Cr. unfold dzero. rewrite coef_const. ring.
+  Qed.
+
+  Lemma ppdnev_d_dual_spec (s : @ppspline R (dual R)) c m d :
+    pc s = Some c -> Forall wf c ->
+    ppdnev_d_dual s X m = Ok d ->
+    exists d0 d1, ppdnev_single xmul_dual s (re X) m = Ok d0 /\
+                  ppdnev_single xmul_dual s (re X) (m + 1) = Ok d1 /\
+                  wf d /\ re d = re d0 /\ forall v, coef d v = coef d0 v + re d1 * coef X v.
+  Proof.
+    intros Hc Wc. unfold ppdnev_d_dual, dual_row. rewrite Hc.
+    destruct (omapM (fun i => bspldnev_dual X i (pk s) (pt s) m None) (seq 0 (pn s))) as [Ds| |] eqn:ED;
+      cbn [obind]; try discriminate.
+    unfold dmul11_, gmul11. destruct (Nat.eqb_spec (length c) (length Ds)) as [L|L]; try discriminate.
+    intros HD. inversion HD as [HD']. clear HD.
+    destruct (dual_row_spec (pk s) (pt s) m _ Ds ED) as (bs & dbs & Hbs & Hdbs & WDs & RDs & CDs).
+    pose proof (omapM_length _ _ _ ED) as L1. pose proof (omapM_length _ _ _ Hbs) as L2.
+    pose proof (omapM_length _ _ _ Hdbs) as L3.
+    destruct (gdot_dd_acc c Ds dzero Wc WDs wf_dzero) as (W & Rr & Cr).
+    assert (E0 : exists d0, ppdnev_single xmul_dual s (re X) m = Ok d0).
+    { unfold ppdnev_single, bspldnev_row. rewrite Hbs. cbn [obind]. rewrite Hc. unfold fdmul11_, gmul11.
+      replace (length bs =? length c)%nat with true by (symmetry; apply Nat.eqb_eq; lia). eauto. }
+    assert (E1 : exists d1, ppdnev_single xmul_dual s (re X) (m + 1) = Ok d1).
+    { unfold ppdnev_single, bspldnev_row. rewrite Hdbs. cbn [obind]. rewrite Hc. unfold fdmul11_, gmul11.
+      replace (length dbs =? length c)%nat with true by (symmetry; apply Nat.eqb_eq; lia). eauto. }
+    destruct E0 as [d0 E0]. destruct E1 as [d1 E1]. exists d0, d1.
+    split; [exact E0|]. split; [exact E1|].
+    destruct (ppdnev_single_dual_R s c (re X) m d0 Hc Wc E0) as (row0 & Hr0 & _ & R0 & C0).
+    destruct (ppdnev_single_dual_R s c (re X) (m + 1) d1 Hc Wc E1) as (row1 & Hr1 & _ & R1 & _).
+    unfold bspldnev_row in Hr0, Hr1. rewrite Hbs in Hr0. rewrite Hdbs in Hr1.
+    inversion Hr0; subst row0. inversion Hr1; subst row1.
+    subst d. unfold dot, gdot. cbn [osum0 oadd omul ops_dual]. split; [exact W|]. split.
+    - rewrite Rr, RDs, R0. cbn. rewrite (dotR_comm bs). ring.
+    - intros v. rewrite Cr, RDs, CDs, C0, R1. unfold dzero. rewrite coef_const.
+      rewrite dotR_scale_r, (dotR_comm (map (fun d2 => coef d2 v) c) bs), (dotR_comm (map (@re R) c) dbs). ring.
+  Qed.
 End Abscissa1.
 
 (* ------------------------------------------------------------------ second order *)
@@ -403,4 +474,82 @@ Proof.
     + destruct (name_eqb _ _) eqn:EQ; [|reflexivity].
       apply name_eqb_eq in EQ. exfalso. apply NE.
       symmetry. apply (proj1 (NoDup_nth names []) ND i j Hi Hj' EQ).
+Qed.
+
+(* ------------------------------------------------------------------ linearity in the data: Dual2 data *)
+Section DataDual2.
+  (* any real-valued observation h of a Dual2 that is additive, commutes with scaling by a float
+     and vanishes at zero - on well-formed numbers *)
+  Variable h2 : dual2 R -> R.
+  Hypothesis h2_zero : h2 (@d2zero R NumR) = 0.
+  Hypothesis h2_sub : forall a b, wf2 a -> wf2 b -> h2 (d2sub false a b) = h2 a - h2 b.
+  Hypothesis h2_add : forall a b, wf2 a -> wf2 b -> h2 (d2add false a b) = h2 a + h2 b.
+  Hypothesis h2_mul : forall f a, wf2 a -> h2 (xmul_dual2 f a) = f * h2 a.
+
+  Lemma data_sens_dual2 (s s' : @ppspline R (dual2 R)) tau y l r lsq : Forall wf2 y ->
+    csolve xmul_dual2 s tau y l r lsq = Ok s' ->
+    csolve xmul_num (pp_map h2 s) tau (map h2 y) l r lsq = Ok (pp_map h2 s') /\
+    forall x m d, ppdnev_single xmul_dual2 s' x m = Ok d ->
+                  ppdnev_single xmul_num (pp_map h2 s') x m = Ok (h2 d).
+  Proof.
+    intros G HS.
+    assert (g_zero : wf2 (@ozero _ (@ops_dual2 R NumR))) by apply wf2_d2zero.
+    assert (g_sub : forall a b, wf2 a -> wf2 b -> wf2 (@osub _ (@ops_dual2 R NumR) a b)).
+    { intros a b Wa Wb. apply (d2sub_spec false a b Wa Wb). discriminate. }
+    assert (g_add : forall a b, wf2 a -> wf2 b -> wf2 (@oadd _ (@ops_dual2 R NumR) a b)).
+    { intros a b Wa Wb. apply (d2add_spec false a b Wa Wb). discriminate. }
+    assert (g_mul : forall (f : R) a, wf2 a -> wf2 (xmul_dual2 f a)).
+    { intros f a Wa. apply (wf2_xmul f a Wa). }
+    assert (h_zero : h2 (@ozero _ (@ops_dual2 R NumR)) = @ozero _ (@ops_num R NumR)) by exact h2_zero.
+    assert (h_sum0 : h2 (@osum0 _ (@ops_dual2 R NumR)) = @osum0 _ (@ops_num R NumR)).
+    { cbn [osum0 ops_dual2 ops_num]. rewrite h2_zero. cbn. ring. }
+    assert (h_mul : forall (f : R) a, wf2 a -> h2 (xmul_dual2 f a) = xmul_num f (h2 a)).
+    { intros f a Wa. rewrite h2_mul by auto. reflexivity. }
+    destruct (csolve_hom xmul_dual2 xmul_num h2 wf2 g_zero g_zero g_sub g_add g_mul
+                h_zero h_sum0 h2_sub h2_add h_mul s s' tau y l r lsq G HS) as [H1 G1].
+    split; [exact H1|].
+    intros x m d HD.
+    exact (ppdnev_single_hom xmul_dual2 xmul_num h2 wf2 g_zero g_add g_mul
+             h_sum0 h2_add h_mul s' x m d G1 HD).
+  Qed.
+End DataDual2.
+
+(* the three observations: value, first-order coefficient of v, stored second-order coefficient of (u, v) *)
+Lemma data_sens2_re (s s' : @ppspline R (dual2 R)) tau y l r lsq : Forall wf2 y ->
+  csolve xmul_dual2 s tau y l r lsq = Ok s' ->
+  csolve xmul_num (pp_map (@re2 R) s) tau (map (@re2 R) y) l r lsq = Ok (pp_map (@re2 R) s') /\
+  forall x m d, ppdnev_single xmul_dual2 s' x m = Ok d ->
+                ppdnev_single xmul_num (pp_map (@re2 R) s') x m = Ok (re2 d).
+Proof.
+  apply data_sens_dual2.
+  - reflexivity.
+  - intros a b Wa Wb. destruct (d2sub_spec false a b Wa Wb ltac:(discriminate)) as (_ & C & _). exact C.
+  - intros a b Wa Wb. destruct (d2add_spec false a b Wa Wb ltac:(discriminate)) as (_ & C & _). exact C.
+  - intros f a Wa. destruct (wf2_xmul f a Wa) as (_ & C & _). exact C.
+Qed.
+Lemma data_sens2_coef1 v (s s' : @ppspline R (dual2 R)) tau y l r lsq : Forall wf2 y ->
+  csolve xmul_dual2 s tau y l r lsq = Ok s' ->
+  csolve xmul_num (pp_map (fun d => coef1 d v) s) tau (map (fun d => coef1 d v) y) l r lsq
+    = Ok (pp_map (fun d => coef1 d v) s') /\
+  forall x m d, ppdnev_single xmul_dual2 s' x m = Ok d ->
+                ppdnev_single xmul_num (pp_map (fun d => coef1 d v) s') x m = Ok (coef1 d v).
+Proof.
+  apply (data_sens_dual2 (fun d => coef1 d v)).
+  - reflexivity.
+  - intros a b Wa Wb. destruct (d2sub_spec false a b Wa Wb ltac:(discriminate)) as (_ & _ & C & _). apply C.
+  - intros a b Wa Wb. destruct (d2add_spec false a b Wa Wb ltac:(discriminate)) as (_ & _ & C & _). apply C.
+  - intros f a Wa. destruct (wf2_xmul f a Wa) as (_ & _ & C & _). apply C.
+Qed.
+Lemma data_sens2_coef2 u v (s s' : @ppspline R (dual2 R)) tau y l r lsq : Forall wf2 y ->
+  csolve xmul_dual2 s tau y l r lsq = Ok s' ->
+  csolve xmul_num (pp_map (fun d => coef2 d u v) s) tau (map (fun d => coef2 d u v) y) l r lsq
+    = Ok (pp_map (fun d => coef2 d u v) s') /\
+  forall x m d, ppdnev_single xmul_dual2 s' x m = Ok d ->
+                ppdnev_single xmul_num (pp_map (fun d => coef2 d u v) s') x m = Ok (coef2 d u v).
+Proof.
+  apply (data_sens_dual2 (fun d => coef2 d u v)).
+  - unfold coef2, d2zero, dual2_new. cbn. reflexivity.
+  - intros a b Wa Wb. destruct (d2sub_spec false a b Wa Wb ltac:(discriminate)) as (_ & _ & _ & C & _). apply C.
+  - intros a b Wa Wb. destruct (d2add_spec false a b Wa Wb ltac:(discriminate)) as (_ & _ & _ & C & _). apply C.
+  - intros f a Wa. destruct (wf2_xmul f a Wa) as (_ & _ & _ & C). apply C.
 Qed.
